@@ -558,4 +558,41 @@ example : (mkPage [] none none none (some (.arr [.atom (.int 1)])) none).cropbox
     (mkPage [] none none (some (.arr [.atom (.int 9), .atom (.int 8), .atom (.int 1), .atom (.int 2)])) none none).cropbox
       = (1, 2, 9, 8) := by decide
 
+/-- An integer `Rotate` that is a multiple of 90 (negative, beyond 360, …) is stored as one of the
+four quarter turns. -/
+theorem C04_rotate_quarter (r : Int) (h : r % 90 = 0) :
+    norm_rotate r = 0 ∨ norm_rotate r = 90 ∨ norm_rotate r = 180 ∨ norm_rotate r = 270 := by
+  simp only [norm_rotate, pyMod]
+  rw [Int.fmod_eq_emod_of_nonneg _ (by omega)]
+  omega
+
+/-- **Every constructed page lands on its turned sheet.** No hypothesis on the boxes is left: for
+every page `PDFPage.__init__` builds (whatever the entries: missing, swapped corners, ill-formed)
+whose Rotate is a multiple of 90, `process_page`/`begin_page` map every point of the (normalised)
+MediaBox coordinate system where the specification puts it, `LTPage.bbox` is `(0,0,w',h')` of the
+turned sheet, and the harness observation equals the specification. -/
+theorem C04_page_lands (g : Store) (id : Option Nat) (res mb cb rot : Option Val)
+    (hq : (mkPage g id res mb cb rot).rotate % 90 = 0) (p : Point) :
+    let pg := mkPage g id res mb cb rot
+    apply_matrix_pt (page_ctm pg.rotate pg.mediabox) p = (specDevice pg.rotate pg.mediabox p).1 ∧
+    begin_page_bbox (page_ctm pg.rotate pg.mediabox) pg.mediabox =
+      (0, 0, (specDevice pg.rotate pg.mediabox p).2.1, (specDevice pg.rotate pg.mediabox p).2.2) ∧
+    render pg.rotate pg.mediabox p = specRender pg.rotate pg.mediabox p := by
+  intro pg
+  obtain ⟨h0, h1, hn, _⟩ := C04_page_values g id res mb cb rot
+  have hrot : pg.rotate = 0 ∨ pg.rotate = 90 ∨ pg.rotate = 180 ∨ pg.rotate = 270 := by
+    have a0 : 0 ≤ pg.rotate := h0
+    have a1 : pg.rotate < 360 := h1
+    have a2 : pg.rotate % 90 = 0 := hq
+    omega
+  exact ⟨C04_ctm pg.rotate hrot pg.mediabox p, C04_ctm_bbox pg.rotate hrot pg.mediabox hn.1 hn.2 p,
+    C04_render pg.rotate hrot pg.mediabox hn.1 hn.2 p⟩
+
+/-- A page with `Rotate -90` and a MediaBox given by its upper-right and lower-left corners. -/
+example :
+    let pg := mkPage [] none none (some (.arr [.atom (.int 310), .atom (.int 420), .atom (.int 10), .atom (.int 20)]))
+      none (some (.atom (.int (-90))))
+    pg.rotate = 270 ∧ pg.rotate % 90 = 0 ∧ pg.mediabox = (10, 20, 310, 420) := by
+  decide
+
 end PdfVerif.Props.C04
